@@ -248,6 +248,9 @@ func (x *Exec) alloc(st *State, a *ssa.Alloc) Val {
 
 func (x *Exec) arrayFromStorage(st *State, id string, t types.Type) Val {
 	at := t.Underlying().(*types.Array)
+	if o, ok := x.arrOrigin[id]; ok {
+		return Val{K: KArr, T: t, S: o.val}
+	}
 	if at.Len() > 64 {
 		panic(oos("load of large local array"))
 	}
@@ -261,13 +264,14 @@ func (x *Exec) arrayFromStorage(st *State, id string, t types.Type) Val {
 
 func (x *Exec) arrayToStorage(st *State, id string, t types.Type, v Val) {
 	at := t.Underlying().(*types.Array)
-	if at.Len() > 64 {
-		panic(oos("store of large local array"))
-	}
 	l := x.lazyFor(st, at.Elem())
-	for i := int64(0); i < at.Len(); i++ {
-		l.ups = append(l.ups, Upd{arr: id, idx: sInt(i), v: []string{x.byteAt(v.S, sInt(i), at.Elem())}})
+	if len(comps(at.Elem())) != 1 {
+		panic(oos("store of a local array with compound elements"))
 	}
+	x.byteAt(v.S, "0", at.Elem())
+	l.ups = append(l.ups, Upd{arr: id, n: sInt(at.Len()), fromVal: v.S, fromFn: "elemAt." + typeName(at.Elem())})
+	x.arrOrigin[id] = originInfo{val: v.S, t: t, n: at.Len()}
+	st.hv++
 }
 
 func (x *Exec) elemFieldAddr(base Val, field int) Val {
@@ -511,7 +515,12 @@ func (x *Exec) convert(fr *Frame, st *State, v *ssa.Convert) Val {
 		x.byteArrayFacts(hv)
 		return Val{K: KSlice, T: t, Arr: r, Off: "0", Len: ln, Cap: ln}
 	case from == KSlice && to == KStr:
-		s := x.decls.Fresh("str", "Str")
+		// string(b): an injective function of the byte content
+		c := x.contentOf(st, a)
+		x.decls.Fun("strof", []string{"Val"}, "Str")
+		x.decls.Fun("strof.inv", []string{"Str"}, "Val")
+		s := "(strof " + c + ")"
+		x.injective("strof")
 		st.assume(sEq(x.strlen(s), a.Len))
 		return Val{K: KStr, T: t, S: s}
 	case from == KInt && to == KStr:
@@ -534,14 +543,14 @@ func (x *Exec) makeInterface(st *State, v *ssa.MakeInterface) Val {
 		x.decls.Fun(tag, []string{"Int"}, "Int")
 		x.decls.Fun(tag+".inv", []string{"Int"}, "Int")
 		b := "(" + tag + " " + a.S + ")"
-		st.assume(sAnd(sNot(sEq(b, "0")), sEq("("+tag+".inv "+b+")", a.S), sEq("(iface.tag "+b+")", sInt(int64(id)))))
+		x.boxFacts(tag, id)
 		return Val{K: KRef, T: v.Type(), S: b}
 	case KInt, KBool, KStr, KArr:
 		srt := sortOfKind(a.K)
 		x.decls.Fun(tag, []string{srt}, "Int")
 		x.decls.Fun(tag+".inv", []string{"Int"}, srt)
 		b := "(" + tag + " " + a.S + ")"
-		st.assume(sAnd(sNot(sEq(b, "0")), sEq("("+tag+".inv "+b+")", a.S), sEq("(iface.tag "+b+")", sInt(int64(id)))))
+		x.boxFacts(tag, id)
 		return Val{K: KRef, T: v.Type(), S: b}
 	}
 	// unmodelled payload: a fresh non-nil interface value of known dynamic type
@@ -669,11 +678,9 @@ func (x *Exec) slice(fr *Frame, st *State, v *ssa.Slice) Val {
 		av := x.deref(st, b)
 		r := x.allocRef(st)
 		l := x.lazyFor(st, at.Elem())
-		if at.Len() <= 64 {
-			for i := int64(0); i < at.Len(); i++ {
-				l.ups = append(l.ups, Upd{arr: r, idx: sInt(i), v: []string{x.byteAt(av.S, sInt(i), at.Elem())}})
-			}
-		}
+		x.byteAt(av.S, "0", at.Elem()) // declares the element function
+		l.ups = append(l.ups, Upd{arr: r, n: sInt(at.Len()), fromVal: av.S, fromFn: "elemAt." + typeName(at.Elem())})
+		x.arrOrigin[r] = originInfo{val: av.S, t: pt.Elem(), n: at.Len()}
 		x.note("array-valued location sliced at " + x.where(v) + ": the slice is modelled as a copy (no write-through)")
 		return Val{K: KSlice, T: t, Arr: r, Off: lo, Len: sSub(hi, lo), Cap: sSub(n, lo)}
 	}
@@ -702,6 +709,8 @@ func (x *Exec) indexAddr(fr *Frame, st *State, v *ssa.IndexAddr) Val {
 		}
 		x.guard(fr, st, v, "bounds:index", sAnd(sLe("0", i.S), sLt(i.S, sInt(at.Len()))))
 		if x.arrStorage[b.S] {
+			// element-wise access: the storage no longer mirrors a single array value (conservative: any IndexAddr may be a store)
+			delete(x.arrOrigin, b.S)
 			return Val{K: KAddr, T: v.Type(), A: &Addr{Kind: AElem, Base: b.S, Idx: i.S, Key: elemKey(at.Elem()), T: at.Elem()}}
 		}
 	}
@@ -789,4 +798,12 @@ func (x *Exec) next(fr *Frame, st *State, v *ssa.Next) Val {
 	st.visitedKey = kk
 	st.visited[rg] = sIte(okc, sSto(vis, kk, "true"), vis)
 	return Val{K: KTuple, T: v.Type(), Fs: []Val{boolVal(okc), k, val}}
+}
+
+// boxFacts: a boxed value is a non-nil interface value of the given dynamic type, and boxing is injective
+func (x *Exec) boxFacts(tag string, id int) {
+	x.decls.Pat("app:"+tag, func(args []string) string {
+		b := "(" + tag + " " + args[0] + ")"
+		return sAnd(sNot(sEq(b, "0")), sEq("("+tag+".inv "+b+")", args[0]), sEq("(iface.tag "+b+")", sInt(int64(id))))
+	})
 }
